@@ -54,6 +54,13 @@ pub fn with_hash_keys<R: Send>(keys: u64, f: impl FnOnce() -> R + Send) -> R {
     })
 }
 
+/// Give the *current* thread hash seeds derived from `keys`.  Only effective when called before
+/// the thread creates its first `HashMap` (the engine calls it first thing in every shard thread,
+/// so that a run is a function of the code and VERIF_SEED also where tested code iterates maps).
+pub fn set_thread_keys(keys: u64) {
+    OVERRIDE.with(|o| o.set(Some(keys)));
+}
+
 pub fn is_overridden() -> bool {
     OVERRIDE.with(Cell::get).is_some()
 }
